@@ -606,6 +606,8 @@ func TestSurvey(t *testing.T) {
 		var c Case
 		if which == "ffi" {
 			c, _ = genFFICase(rt)
+		} else if which == "rec" {
+			c, _ = genRecursiveCase(rt)
 		} else {
 			c, _ = genDeclCase(rt)
 		}
@@ -1136,5 +1138,148 @@ func TestShowFFI(t *testing.T) {
 	rapid.Check(t, func(rt *rapid.T) {
 		c, _ := genFFICase(rt)
 		fmt.Println(describe(c, ""), "\n----- want\n"+c.Want)
+	})
+}
+
+// --- part (iii): self-referential and `and`-group declarations ------------------------------------------
+// A field or payload may mention the type being defined (or a later type of the same `and` group)
+// below any type constructor: slice, tuple, generic user record / union, external generic type. The
+// Go client states, per field and payload, the documented Go type in a function signature, so the
+// package only compiles if every reference was resolved to the named type.
+
+type recRef struct {
+	fo  string // Folang type text with %s for the referenced type name
+	go_ string
+	// breaksCycle: the wrapper is a reference type in Go (slice, map wrapper, interface), so a record may contain itself through it
+	breaksCycle bool
+}
+
+var refWrappers = []recRef{
+	{"[]%s", "[]%s", true},
+	{"dict.Dict<string, %s>", "dict.Dict[string, %s]", true},
+	{"[]Bx<%s>", "[]Bx[%s]", true},
+	{"Op<%s>", "Op[%s]", true},
+	{"int*[]%s", "frt.Tuple2[int, []%s]", true},
+	{"Op<int>*Op<%s>", "frt.Tuple2[Op[int], Op[%s]]", true},
+	{"[]dict.Dict<int, %s>", "[]dict.Dict[int, %s]", true},
+	{"Op<[]%s>", "Op[[]%s]", true},
+	{"[](string*%s)", "[]frt.Tuple2[string, %s]", true},
+	{"dict.Dict<string, []Bx<%s>>", "dict.Dict[string, []Bx[%s]]", true},
+	// value embeddings: fine below a union case (the union is an interface) and for forward references to another type
+	{"%s", "%s", false},
+	{"Bx<%s>", "Bx[%s]", false},
+	{"%s*int", "frt.Tuple2[%s, int]", false},
+	{"Bx<Bx<%s>>", "Bx[Bx[%s]]", false},
+}
+
+func genRecursiveCase(rt *rapid.T) (Case, []string) {
+	w := &world{rt: rt, labels: map[string]bool{}}
+	var fo, goChk strings.Builder
+	fo.WriteString("type Bx<T> = {BxV: T; BxN: int}\n\ntype Op<T> =\n| OSome of T\n| ONone\n\n")
+	chk := 0
+	assert := func(recv, field, goT string) {
+		chk++
+		fmt.Fprintf(&goChk, "func chk%d(x %s) %s { return x.%s }\n", chk, recv, goT, field)
+	}
+	ngroups := 1 + w.n(2, "ngroups")
+	tn := 0
+	for gi := 0; gi < ngroups; gi++ {
+		size := 1 + w.n(2, "groupSize") // 1 = a single self-referential type, >1 = an `and` group
+		var names []string
+		var isRec []bool
+		for i := 0; i < size; i++ {
+			tn++
+			names = append(names, fmt.Sprintf("Ty%d", tn))
+			isRec = append(isRec, w.n(1, "isRec") == 0)
+		}
+		for i := 0; i < size; i++ {
+			kw := "type"
+			if i > 0 {
+				kw = "and"
+			}
+			// what this declaration may refer to: itself and every member of its group (earlier or later)
+			pickRef := func(selfOK bool) (string, bool) {
+				j := w.n(size-1, "refTarget")
+				return names[j], j == i
+			}
+			if isRec[i] {
+				nf := 1 + w.n(2, "nRecFields")
+				var fs []string
+				for k := 0; k < nf; k++ {
+					target, self := pickRef(true)
+					var wr recRef
+					for {
+						wr = refWrappers[w.n(len(refWrappers)-1, "wrapper")]
+						// a record may contain itself (or a record that contains it) only through a reference type
+						if wr.breaksCycle {
+							break
+						}
+						if !self && !isRec[indexOf(names, target)] {
+							break // by value, but the target is a union (an interface)
+						}
+					}
+					fname := fmt.Sprintf("F%d%c", tn-size+i+1, 'a'+k)
+					fs = append(fs, fmt.Sprintf("%s: %s", fname, fmt.Sprintf(wr.fo, target)))
+					assert(names[i], fname, fmt.Sprintf(wr.go_, target))
+					w.labels["reference below: "+strings.ReplaceAll(wr.fo, "%s", "X")] = true
+					if self {
+						w.labels["self reference"] = true
+					} else {
+						w.labels["reference inside an and-group"] = true
+					}
+				}
+				fs = append(fs, fmt.Sprintf("N%d: int", tn-size+i+1))
+				fmt.Fprintf(&fo, "%s %s = {%s}\n", kw, names[i], strings.Join(fs, "; "))
+			} else {
+				nc := 1 + w.n(2, "nCases")
+				fmt.Fprintf(&fo, "%s %s =\n", kw, names[i])
+				for k := 0; k < nc; k++ {
+					target, self := pickRef(true)
+					wr := refWrappers[w.n(len(refWrappers)-1, "wrapperU")]
+					cname := fmt.Sprintf("C%d%c", tn-size+i+1, 'a'+k)
+					fmt.Fprintf(&fo, "| %s of %s\n", cname, fmt.Sprintf(wr.fo, target))
+					assert(names[i]+"_"+cname, "Value", fmt.Sprintf(wr.go_, target))
+					w.labels["reference below: "+strings.ReplaceAll(wr.fo, "%s", "X")] = true
+					if self {
+						w.labels["self reference"] = true
+					} else {
+						w.labels["reference inside an and-group"] = true
+					}
+				}
+				fmt.Fprintf(&fo, "| C%dz\n", tn-size+i+1)
+			}
+		}
+		fo.WriteString("\n")
+	}
+	src := "package main\n\nimport frt\nimport dict\n\n" + fo.String() + "let hello () = frt.Println \"ok\"\n\nlet keep () = dict.New<string, int> ()\n"
+	client := "package main\n\nimport (\n\t\"github.com/karino2/folang/pkg/dict\"\n\t\"github.com/karino2/folang/pkg/frt\"\n)\n\nvar _ dict.Dict[int, int]\nvar _ frt.Tuple2[int, int]\n\n" +
+		goChk.String() + "\nfunc main() { hello() }\n"
+	var labels []string
+	for l := range w.labels {
+		labels = append(labels, l)
+	}
+	sort.Strings(labels)
+	return Case{Files: []pipeline.SrcFile{{Name: "decl.fo", Content: src}, {Name: "client.go", Content: client}}, Want: "ok\n"}, labels
+}
+
+func indexOf(xs []string, x string) int {
+	for i, y := range xs {
+		if y == x {
+			return i
+		}
+	}
+	return -1
+}
+
+func TestRecursiveDeclarations(t *testing.T) {
+	e := vt.Get()
+	defer e.Flush()
+	if e.FC == "" {
+		t.Skip("needs the orchestrator (VERIF_FC)")
+	}
+	rapid.Check(t, func(rt *rapid.T) {
+		c, labels := genRecursiveCase(rt)
+		e.Record("TestRecursiveDeclarations", vt.HashJSON(c), true, labels, func() any { return c })
+		e.Check(rt, "package", c, func() error { return check(c) })
 	})
 }
